@@ -27,7 +27,7 @@ EXPLANATION = (
 
 def run(S):
     T.KT = T.KindTable(S.driver, S.adts)
-    docs = reparse.TABLE_DOCS + reparse.BLOCK_DOCS + reparse.MISC_DOCS + deep.DOCS + deep.PROSE + deep.CODE_DOCS + deep.EMBED_DOCS + reparse.EVAL_DOCS + reparse.corpus_docs(S) + reparse.in_contexts(reparse.COMMENT_DOCS) + reparse.PROSE_LINE_DOCS
+    docs = reparse.TABLE_DOCS + reparse.NORMALISE_DOCS + reparse.BLOCK_DOCS + reparse.MISC_DOCS + deep.DOCS + deep.PROSE + deep.CODE_DOCS + deep.EMBED_DOCS + reparse.EVAL_DOCS + reparse.corpus_docs(S) + reparse.in_contexts(reparse.COMMENT_DOCS) + reparse.PROSE_LINE_DOCS
     if S.tier != 'quick':
         docs += deep.OFF_DOCS
     found, cov = reparse.explore(S, docs, tabs=(2,) if S.tier == 'quick' else (2, 4),
